@@ -1,6 +1,7 @@
 import Pm.Daemon
 import Pm.AliasProof
 import Pm.Dev2Fd
+import Pm.ToBuf
 /-! Helper lemmas for property C01 (a request commands only the plugs of the nodes it names).
 
 `enqueue` (the mirror of `dev_enqueue_actions` + `_enqueue_targeted_actions` for one device) is cut into pieces
@@ -8,7 +9,7 @@ import Pm.Dev2Fd
 statement below is then derived from one case lemma, `newActs_cases`. -/
 namespace Pm.Daemon.Enq
 open Pm Pm.Client
-open Pm.Dev2 (Dev Action Stmt Plug Arg ExecCtx StepR Oracle Out stmtSend hsprintf rangedNames setTop teleMem)
+open Pm.Dev2 (Dev Action Stmt Plug Arg ExecCtx StepR Oracle Out stmtSend hsprintf rangedNames setTop teleMem clipTo clipTo_append_of_le)
 
 /-! ### the pieces -/
 
@@ -402,10 +403,11 @@ theorem install_involved (w : W) (c : Cli) (com : Com) (names : List Name) (i : 
 
 /-! ### `_process_send`: what goes on the wire -/
 
-/-- first-time send of a singlet action: the format with the configured name of the one plug -/
+/-- first-time send of a singlet action: the format with the configured name of the one plug, queued behind what is queued;
+    `dev->to` holds 65536 bytes: beyond that the oldest queued bytes give way (`clipTo`) -/
 theorem stmtSend_singlet (d : Dev) (a : Action) (o : Oracle) (e : ExecCtx) (fmt : Bytes) (p : Plug)
     (hp : e.processing = false) (hs : e.plugs = some [p]) :
-    (stmtSend d a o e fmt).dev = { d with toBuf := d.toBuf ++ hsprintf fmt (some p.name) } ∧
+    (stmtSend d a o e fmt).dev = { d with toBuf := clipTo (d.toBuf ++ hsprintf fmt (some p.name)) } ∧
     (stmtSend d a o e fmt).out.head? = some (.sent (hsprintf fmt (some p.name))) := by
   unfold stmtSend
   simp only [hp, hs, Bool.not_false, ↓reduceIte]
@@ -416,7 +418,7 @@ theorem stmtSend_singlet (d : Dev) (a : Action) (o : Oracle) (e : ExecCtx) (fmt 
 theorem stmtSend_ranged (d : Dev) (a : Action) (o : Oracle) (e : ExecCtx) (fmt : Bytes) (p q : Plug) (r : List Plug)
     (hp : e.processing = false) (hs : e.plugs = some (p :: q :: r)) :
     match rangedNames ((p :: q :: r).map (·.name)) with
-    | some n => (stmtSend d a o e fmt).dev = { d with toBuf := d.toBuf ++ hsprintf fmt (some n) } ∧
+    | some n => (stmtSend d a o e fmt).dev = { d with toBuf := clipTo (d.toBuf ++ hsprintf fmt (some n)) } ∧
                 (stmtSend d a o e fmt).out.head? = some (.sent (hsprintf fmt (some n)))
     | none => (stmtSend d a o e fmt).dev = d ∧ (stmtSend d a o e fmt).out = [.abortAssert "hostlist_sort assert in _process_send"] := by
   unfold stmtSend
@@ -428,10 +430,36 @@ theorem stmtSend_ranged (d : Dev) (a : Action) (o : Oracle) (e : ExecCtx) (fmt :
 /-- first-time send of an `_all` action (no plug list; an empty one is treated alike): `%s` is not substituted -/
 theorem stmtSend_all (d : Dev) (a : Action) (o : Oracle) (e : ExecCtx) (fmt : Bytes)
     (hp : e.processing = false) (hs : e.plugs = none ∨ e.plugs = some []) :
-    (stmtSend d a o e fmt).dev = { d with toBuf := d.toBuf ++ hsprintf fmt none } ∧
+    (stmtSend d a o e fmt).dev = { d with toBuf := clipTo (d.toBuf ++ hsprintf fmt none) } ∧
     (stmtSend d a o e fmt).out.head? = some (.sent (hsprintf fmt none)) := by
   unfold stmtSend
   rcases hs with hs | hs <;> simp only [hp, hs, Bool.not_false, ↓reduceIte] <;> split <;> simp
+
+/-- the statements as they read before the capacity of `dev->to` was modelled: as long as the text fits behind what is queued
+    (`|queued ++ text| ≤ 65536`) the write is a plain append -/
+theorem stmtSend_singlet_below (d : Dev) (a : Action) (o : Oracle) (e : ExecCtx) (fmt : Bytes) (p : Plug)
+    (hp : e.processing = false) (hs : e.plugs = some [p]) (hfit : (d.toBuf ++ hsprintf fmt (some p.name)).length ≤ 65536) :
+    (stmtSend d a o e fmt).dev = { d with toBuf := d.toBuf ++ hsprintf fmt (some p.name) } ∧
+    (stmtSend d a o e fmt).out.head? = some (.sent (hsprintf fmt (some p.name))) := by
+  have h := stmtSend_singlet d a o e fmt p hp hs
+  rw [clipTo_append_of_le _ _ hfit] at h; exact h
+
+theorem stmtSend_ranged_below (d : Dev) (a : Action) (o : Oracle) (e : ExecCtx) (fmt : Bytes) (p q : Plug) (r : List Plug)
+    (hp : e.processing = false) (hs : e.plugs = some (p :: q :: r)) (n : Bytes)
+    (hn : rangedNames ((p :: q :: r).map (·.name)) = some n) (hfit : (d.toBuf ++ hsprintf fmt (some n)).length ≤ 65536) :
+    (stmtSend d a o e fmt).dev = { d with toBuf := d.toBuf ++ hsprintf fmt (some n) } ∧
+    (stmtSend d a o e fmt).out.head? = some (.sent (hsprintf fmt (some n))) := by
+  have h := stmtSend_ranged d a o e fmt p q r hp hs
+  rw [hn] at h
+  dsimp only at h
+  rw [clipTo_append_of_le _ _ hfit] at h; exact h
+
+theorem stmtSend_all_below (d : Dev) (a : Action) (o : Oracle) (e : ExecCtx) (fmt : Bytes)
+    (hp : e.processing = false) (hs : e.plugs = none ∨ e.plugs = some []) (hfit : (d.toBuf ++ hsprintf fmt none).length ≤ 65536) :
+    (stmtSend d a o e fmt).dev = { d with toBuf := d.toBuf ++ hsprintf fmt none } ∧
+    (stmtSend d a o e fmt).out.head? = some (.sent (hsprintf fmt none)) := by
+  have h := stmtSend_all d a o e fmt hp hs
+  rw [clipTo_append_of_le _ _ hfit] at h; exact h
 
 /-- a send that is waiting for its bytes to drain writes nothing more -/
 theorem stmtSend_again (d : Dev) (a : Action) (o : Oracle) (e : ExecCtx) (fmt : Bytes) (hp : e.processing = true) :
@@ -476,7 +504,7 @@ theorem newActs_topCtx {plugs : List Plug} {scripts : Nat → Option (List Stmt)
 theorem fresh_singlet_send {d : Dev} {com : Nat} {targets : List Bytes} {cid : Nat} {tele : Bool} {al : Nat} {a : Action}
     (h : a ∈ newActs d.plugs d.scripts com targets cid tele al) {p : Plug} (hp : a.outerPlugs = some [p])
     (d' : Dev) (o : Oracle) (fmt : Bytes) :
-    (stmtSend d' a o (Pm.Dev2.topCtx a) fmt).dev.toBuf = d'.toBuf ++ hsprintf fmt (some p.name) ∧
+    (stmtSend d' a o (Pm.Dev2.topCtx a) fmt).dev.toBuf = clipTo (d'.toBuf ++ hsprintf fmt (some p.name)) ∧
     p ∈ d.plugs ∧ ∃ n, p.node = some n ∧ n ∈ targets := by
   obtain ⟨h1, h2, _, _⟩ := newActs_topCtx h
   refine ⟨?_, newActs_subset h hp p (by simp)⟩
